@@ -458,6 +458,13 @@ def core_pool():
     t3 = named_table('Verif.Outer', [(5, True, t1), (6, True, vec(t1)), (70000, True, S('i8'))])
     t4 = ('tab', 0, [(1, True, h0), (2, True, ('opt', S('u8')))])
     P += [t1, t2, t3, t4, st(t1, S('u16')), vec(t2)]
+    # handles at every nesting position (C15): variant alternatives, optional members of sequence
+    # elements, map values, arrays, pairs, Result values, table entries, nested tables
+    hv = ('var', [h0, S('u8'), h1])
+    t5 = ('tab', 5, [(1, True, h0), (2, True, vec(h0)), (3, True, st(h1, S('u8'))), (4, True, hv)])
+    t6 = ('tab', 6, [(1, True, t5), (2, True, h1), (3, True, ('opt', h0))])
+    P += [hv, vec(st(h0, ('opt', h1))), ('map', False, S('u8'), h0), arr(3, h0), ('tup', 'pair', [h0, h1]),
+          ('res', 3, 'i32', h0), t5, t6, vec(hv)]
     P += version_family()
     P += fungible_family()
     P += [t for t, _ in cx_family()]
